@@ -367,6 +367,13 @@ func runC06Retag(c *Ctx) Verdict {
 	sc := &c06RetagScenario{Kind: "retag", N: [3]int{g.Range(1, 6), g.Range(1, 6), g.Range(0, 4)}}
 	sc.Counter = []string{"|eval(lambda: count()).as('c').keep()", "|stateCount(lambda: \"v\" >= 0).as('c')", "|cumulativeSum('one').as('c')"}[g.Intn(3)]
 	sc.Script = "stream\n    |from().groupBy('a')\n    |default().tag('a', '1')\n    " + sc.Counter + "\n    |log().prefix('OUT')\n"
+	tags := []string{",a=1", "", ",a=2"}
+	if g.Chance(1, 3) {
+		// grouping by every tag but the excluded ones: series that differ only in an excluded tag are one group
+		sc.Kind = "exclude"
+		sc.Script = "stream\n    |from()\n    |groupBy(*).exclude(" + []string{"'k', 'b'", "'b', 'k'", "'z', 'k', 'b'"}[g.Intn(3)] + ")\n    " + sc.Counter + "\n    |log().prefix('OUT')\n"
+		tags = []string{",a=1,b=x,k=z", ",a=1,b=y,k=z", ",a=2,b=x,k=z"}
+	}
 	c.Scenario = sc
 	cfg := c.WorldConfig()
 	delete(cfg.Knobs, "MinimumEventBufferSize")
@@ -396,7 +403,7 @@ func runC06Retag(c *Ctx) Verdict {
 			wg.Add(1)
 			go func(w int) {
 				defer wg.Done()
-				tag := []string{",a=1", "", ",a=2"}[w]
+				tag := tags[w]
 				for i := 0; i < sc.N[w]; i++ {
 					line := fmt.Sprintf("m%s v=%di,one=1i,w=%di %d\n", tag, i, w, int64(i+1)*int64(time.Second))
 					if code := d.WriteLine("db", "rp", line); code != 204 {
